@@ -263,7 +263,7 @@ def orders(ctx, P):
                     continue
                 for y in ast.walk(f2):
                     if isinstance(y, ast.Assign) and unparse(y.targets[0]) == field and isinstance(y.value, ast.DictComp):
-                        gens = [unparse(g.iter).replace('"', "'") for z in ast.walk(y.value) if isinstance(z, ast.DictComp) for g in z.generators]
+                        gens = [unparse(rules.inline_locals(f2, g.iter)).replace('"', "'") for z in ast.walk(y.value) if isinstance(z, ast.DictComp) for g in z.generators]
                         built.append(gens)
             if not built or any(g != "params['customer_class_names']" for gens in built for g in gens):
                 ctx.violation(ob, "R10.iteration-order", P.func_name(fn), "for ... in %s" % unparse(it)[:80], "sampling-order-from-user-dict",
@@ -304,8 +304,9 @@ def globals_(ctx, P):
                     if txt.startswith("ciw.") or txt.startswith("getcontext()."):
                         n += 1
                         ob.ok("%s:%s" % (q, txt), "%s: %s" % (q, unparse(x)[:60]))
-                        if (q == "seed" and txt == "ciw.rng") or (q == "Simulation.__init__" and txt == "getcontext().prec"):
-                            continue
+                        in_sim_ctor = q == "Simulation.__init__" or (ci is not None and ci.name == "Simulation" and set(rules.effective_names(P, ci, fn)) == {"__init__"})
+                        if (q == "seed" and txt == "ciw.rng") or (in_sim_ctor and txt == "getcontext().prec"):
+                            continue        # (a helper that only the constructor calls is part of the constructor)
                         ctx.violation(ob, "R10.global-state", q, unparse(x)[:80], "global-write", "process-global state is modified at run time", loc(x))
     ctx.floor("recognised global writes", n, 2)
     # module-level objects: anything built at import time other than the documented two (the generator `rng`, the record type) is shared by every
